@@ -39,8 +39,18 @@ type DB struct {
 	KeepLog  bool
 	Disarmed bool
 	Closes   int
-	// YieldRead, if set, is called before every read of the underlying store (C17).
+	// YieldRead, if set, is called before every read of the underlying store through a
+	// READ transaction and before every commit of a write transaction (C17: these are the
+	// scheduling gates of the placement enumeration).
 	YieldRead func(kind string)
+	// Committed counts write transactions whose commit has been applied.
+	Committed int
+}
+
+func (d *DB) yield(kind string) {
+	if d.YieldRead != nil {
+		d.YieldRead(kind)
+	}
 }
 
 // Wrap returns a seam around u.
@@ -91,23 +101,25 @@ func (d *DB) BeginReadTx() (mwdb.ReadTransaction, error) {
 	if err := d.gate("BeginReadTx"); err != nil {
 		return nil, err
 	}
+	d.yield("BeginReadTx")
 	t, err := d.U.BeginReadTx()
 	if err != nil {
 		return nil, err
 	}
-	return &rtx{d: d, u: t}, nil
+	return &rtx{d: d, u: t, ro: true}, nil
 }
 
 type rtx struct {
-	d *DB
-	u mwdb.ReadTransaction
+	d  *DB
+	u  mwdb.ReadTransaction
+	ro bool
 }
 
 func (t *rtx) wrapB(b mwdb.Bucket) mwdb.Bucket {
 	if b == nil {
 		return nil
 	}
-	return &bucket{d: t.d, u: b}
+	return &bucket{d: t.d, u: b, ro: t.ro}
 }
 func (t *rtx) TopLevelBucket(name string) mwdb.Bucket    { return t.wrapB(t.u.TopLevelBucket(name)) }
 func (t *rtx) FetchBucket(m mwdb.BucketMeta) mwdb.Bucket { return t.wrapB(t.u.FetchBucket(m)) }
@@ -134,7 +146,14 @@ func (t *wtx) Commit() error {
 		t.w.Rollback() // the batch is dropped, as a failed leveldb.Write would leave it
 		return err
 	}
-	return t.w.Commit()
+	d.yield("Commit")
+	err := t.w.Commit()
+	if err == nil {
+		d.mu.Lock()
+		d.Committed++
+		d.mu.Unlock()
+	}
+	return err
 }
 func (t *wtx) CreateTopLevelBucket(name string) (mwdb.Bucket, error) {
 	if err := t.d.gate("CreateTopLevelBucket"); err != nil {
@@ -149,15 +168,22 @@ func (t *wtx) CreateTopLevelBucket(name string) (mwdb.Bucket, error) {
 func (t *wtx) DeleteTopLevelBucket(name string) error { return t.w.DeleteTopLevelBucket(name) }
 
 type bucket struct {
-	d *DB
-	u mwdb.Bucket
+	d  *DB
+	u  mwdb.Bucket
+	ro bool
+}
+
+func (b *bucket) rd(kind string) {
+	if b.ro {
+		b.d.yield(kind)
+	}
 }
 
 func (b *bucket) w(x mwdb.Bucket) mwdb.Bucket {
 	if x == nil {
 		return nil
 	}
-	return &bucket{d: b.d, u: x}
+	return &bucket{d: b.d, u: x, ro: b.ro}
 }
 func (b *bucket) NewBucket(name string) (mwdb.Bucket, error) {
 	if err := b.d.gate("NewBucket"); err != nil {
@@ -193,6 +219,7 @@ func (b *bucket) Get(k []byte) ([]byte, error) {
 	if err := b.d.gate("Get"); err != nil {
 		return nil, err
 	}
+	b.rd("Get")
 	return b.u.Get(k)
 }
 func (b *bucket) Clear() error {
@@ -205,10 +232,12 @@ func (b *bucket) GetByPrefix(p []byte) ([]*mwdb.Entry, error) {
 	if err := b.d.gate("GetByPrefix"); err != nil {
 		return nil, err
 	}
+	b.rd("GetByPrefix")
 	return b.u.GetByPrefix(p)
 }
 func (b *bucket) GetBucketMeta() mwdb.BucketMeta { return b.u.GetBucketMeta() }
 func (b *bucket) NewIterator(r *mwdb.Range) mwdb.Iterator {
+	b.rd("NewIterator")
 	return &iter{d: b.d, u: b.u.NewIterator(r), fail: b.d.gate("Iterator") != nil}
 }
 
